@@ -13,6 +13,7 @@ EXPLANATION = (
     "and parse_partial_annotation are twins."
 )
 THOROUGH_CONFIGS = [C.MINIMAL, C.NO_TAG]
+QUICK_CONFIGS = [C.NO_TAG]
 NOT_DECIDED = ["equality of the re-parsed sentence as a value", "idempotence of write-after-parse as a value"]
 
 PT = C.S + "::parse_tokenized"
@@ -21,6 +22,16 @@ WT = C.S + "::write_tokenized_text"
 
 def run(chk):
     w = C.world_for(chk)
+    from . import ctors as _acc
+    _acc.accessors(chk, w, only=["vaporetto::sentence::"])
+    # tokens, their tags and both writers slice the flat tag vector with n_tags: every function that changes the tags or the tag
+    # count must leave tags.len() == n_tags * len(), and the updates must reset both (shared with C05)
+    from . import c05 as _c05
+    chk.rule("R05.1", "every Sentence field is killed on every Ok path of update_* and on every path of the reset (shared with C05)")
+    chk.rule("R05.2", "Err paths of update_* end in the full reset (shared with C05)")
+    chk.rule("R05.3", "tags length form == n_tags form * len() at every exit of a function that changes either (shared with C05)")
+    _c05.kill_rules(chk, w)
+    _c05.r053(chk, w)
     chk.rule("R03.1", "parser specials == writer escape sets (surface and tag), same escape character, separators agree")
     chk.rule("R03.2", "only ASCII constants and the iterated byte (once, in order) are pushed into the String's byte vector")
     chk.rule("R03.3", "tag padding tail of both parsers: slot count after the last tag, padding amount = slot count - own tags")
